@@ -70,6 +70,14 @@ func (v *VUrl) validate(value string) *VUrl {
 	if queryIndex != -1 {
 		urlQuery = decUrl[queryIndex+1:]
 	}
+	// url 里没有的参数也需要验证必填
+	existKeys := make(map[string]struct{})
+	defer requiredOfMissing(v.errBuf, v.ruleObj, func(key string) bool {
+		_, ok := existKeys[key]
+		return ok
+	}, func(key string) string {
+		return key
+	})
 	if urlQuery == "" {
 		return v
 	}
@@ -86,6 +94,7 @@ func (v *VUrl) validate(value string) *VUrl {
 		if l > 1 {
 			val = key2val[1]
 		}
+		existKeys[key] = struct{}{}
 
 		validNames := v.ruleObj.Get(key)
 		if validNames == "" {
